@@ -4,6 +4,7 @@
   and `ops` only ever come from `OP` events.
 -/
 import PosterModel.Lemmas.WorldOwnStream
+import PosterModel.Lemmas.ScriptIds
 
 set_option linter.unusedVariables false
 set_option linter.unusedSimpArgs false
@@ -87,10 +88,6 @@ theorem used_dropOp (w : World) (id : Nat) (h : OwnInv w) : ∀ n, Used (w.dropO
       · exact Or.inr (Or.inl (by rw [← f.streams_eq]; exact hn))
       · exact Or.inr (Or.inr (by rw [← f.ops n e]; exact hn))
 
-/-- the identifier an `OP` event introduces -/
-def Ev.opId? : Ev → Option Nat
-  | .op id _ _ => some id
-  | _ => none
 
 theorem used_badScript (w : World) : ∀ n, Used w.badScript n → Used w n := by
   unfold badScript; used_eq
@@ -108,8 +105,8 @@ theorem used_flushRaw (w : World) : ∀ n, Used w.flushRaw n → Used w n := by
   · exact fun _ h => h
   · used_eq
 
-theorem used_apply (w : World) (e : Ev) (h : OwnInv w) : ∀ n, Used (w.apply e) n → Used w n ∨ Ev.opId? e = some n := by
-  have lift : ∀ {w' : World}, (∀ n, Used w' n → Used w n) → ∀ n, Used w' n → Used w n ∨ Ev.opId? e = some n :=
+theorem used_apply (w : World) (e : Ev) (h : OwnInv w) : ∀ n, Used (w.apply e) n → Used w n ∨ evOpId e = some n := by
+  have lift : ∀ {w' : World}, (∀ n, Used w' n → Used w n) → ∀ n, Used w' n → Used w n ∨ evOpId e = some n :=
     fun hh n hn => Or.inl (hh n hn)
   cases e with
   | setup =>
@@ -236,13 +233,13 @@ theorem used_sweep (w : World) (h : OwnInv w) : ∀ n, Used w.sweep n → Used w
 
 theorem used_emit (w : World) (o : Obs) : ∀ n, Used (w.emit o) n → Used w n := by used_eq
 
-theorem used_step (w : World) (e : Ev) (h : OwnInv w) : ∀ n, Used (w.step e) n → Used w n ∨ Ev.opId? e = some n := by
+theorem used_step (w : World) (e : Ev) (h : OwnInv w) : ∀ n, Used (w.step e) n → Used w n ∨ evOpId e = some n := by
   unfold step
   split
   · exact fun n hn => Or.inl hn
   · have h0 := own_emit w (.ev e) h
     have h1 : OwnInv ((w.emit (.ev e)).apply e) := own_apply _ e h0
-    have u1 : ∀ n, Used ((w.emit (.ev e)).apply e) n → Used w n ∨ Ev.opId? e = some n := by
+    have u1 : ∀ n, Used ((w.emit (.ev e)).apply e) n → Used w n ∨ evOpId e = some n := by
       intro n hn
       rcases used_apply _ e h0 n hn with hn | hn
       · exact Or.inl (used_emit w _ n hn)
@@ -252,11 +249,11 @@ theorem used_step (w : World) (e : Ev) (h : OwnInv w) : ∀ n, Used (w.step e) n
     split
     · exact u1
     · have h2 : OwnInv (drain w1.drainFuel w1) := own_drain _ _ h1
-      have u2 : ∀ n, Used (drain w1.drainFuel w1) n → Used w n ∨ Ev.opId? e = some n :=
+      have u2 : ∀ n, Used (drain w1.drainFuel w1) n → Used w n ∨ evOpId e = some n :=
         fun n hn => u1 n (used_drain _ w1 h1 n hn)
       generalize drain w1.drainFuel w1 = w2 at h2 u2 ⊢
       have u3 : ∀ n, Used (if w2.cfg.sweep = true then drain w2.sweep.drainFuel w2.sweep else w2) n →
-          Used w n ∨ Ev.opId? e = some n := by
+          Used w n ∨ evOpId e = some n := by
         split
         · exact fun n hn => u2 n (used_sweep w2 h2 n (used_drain _ _ (own_sweep w2 h2) n hn))
         · exact u2
@@ -265,8 +262,6 @@ theorem used_step (w : World) (e : Ev) (h : OwnInv w) : ∀ n, Used (w.step e) n
       · exact fun n hn => u3 n (used_emit _ _ n hn)
       · exact u3
 
-/-- the identifiers of the `OP` events of a script, in order -/
-def opIds (evs : List Ev) : List Nat := evs.filterMap Ev.opId?
 
 /-- a script whose (future) operation identifiers are pairwise distinct and not in use is a good one -/
 theorem goodFrom_of_nodup (evs : List Ev) (w : World) (h : OwnInv w) (hn : (opIds evs).Nodup)
@@ -274,13 +269,13 @@ theorem goodFrom_of_nodup (evs : List Ev) (w : World) (h : OwnInv w) (hn : (opId
   induction evs generalizing w with
   | nil => trivial
   | cons e t ih =>
-    have hsplit : opIds (e :: t) = (match Ev.opId? e with | some n => [n] | none => []) ++ opIds t := by
+    have hsplit : opIds (e :: t) = (match evOpId e with | some n => [n] | none => []) ++ opIds t := by
       simp only [opIds, List.filterMap_cons]
-      cases Ev.opId? e <;> rfl
+      cases evOpId e <;> rfl
     refine ⟨?_, ih _ (own_step w e h) ?_ ?_⟩
     · cases e with
       | op id hd req =>
-        have := hu id (by simp [opIds, Ev.opId?])
+        have := hu id (by simp [opIds, evOpId])
         exact ⟨fun hm => this (Or.inl hm), fun hm => this (Or.inr (Or.inl hm))⟩
       | _ => trivial
     · rw [hsplit] at hn
